@@ -740,6 +740,10 @@ func r06a(c *core.Ctx) {
 		if strings.HasSuffix(core.CallName(call), "reusableConn).close") && core.NilAt(errP, call.Block()) == core.NonNil {
 			closed = true
 		}
+		// the close method expanded in place: the connection's socket (field c of the reusableConn) is closed
+		if call.Common().IsInvoke() && call.Common().Method.Name() == "Close" && core.IsFieldLoad(core.Strip(call.Common().Value), "reusableConn", "c") && core.NilAt(errP, call.Block()) == core.NonNil {
+			closed = true
+		}
 	}
 	c.Check(closed, "failed-conn-closed", rel.Pos(), rel, "a connection released with an error is closed", "")
 }
